@@ -18,11 +18,16 @@ EXTENDS RangeWalk, Json
 
 CONSTANTS Tier
 
+VARIABLE T
+
 Quick == Tier = "quick"
-MaxNodes == IF Quick THEN 5 ELSE 6
-PairMax  == IF Quick THEN 3 ELSE 4          \* trees up to this size also get two control values
+MaxNodes == IF Quick THEN 4 ELSE 5
+PairMax  == 3                               \* trees up to this size also get two control values
 MaxList  == 2
-FieldNums == IF Quick THEN {1, 2, 4, 5, 7, 100} ELSE {1, 2, 3, 4, 5, 6, 7, 8, 9, 10, 11, 12, 100, 101, 102}
+\* quick: one field per class of step.  thorough: all fields while the tree has fewer than four nodes, then the fifth
+\* node is drawn from one field per class
+FieldNums == IF Quick THEN {1, 2, 4, 5, 7, 10, 12, 100}
+             ELSE IF Len(T) < 4 THEN {1, 2, 3, 4, 5, 6, 7, 8, 9, 10, 11, 12, 100, 101, 102} ELSE {1, 2, 3, 4, 5, 6, 7, 8, 100}
 
 Tab(n) ==
   CASE n \in {1, 9, 100} -> [c |-> "leaf", e |-> "", k |-> ""]
@@ -41,8 +46,6 @@ Keys(k) == CASE k = "int" -> {<<-1>>, <<2>>, <<10>>}            \* numeric, not 
 
 TypeOf(c) == IF c = "msg" THEN "N" ELSE IF c = "anymsg" THEN "Any" ELSE ""
 Node(p, s, f, c, v) == [p |-> p, s |-> s, f |-> f, c |-> c, t |-> TypeOf(c), v |-> IF c = "leaf" THEN v ELSE 0]
-
-VARIABLE T
 
 RECURSIVE Spine(_, _)
 Spine(tr, j) == IF j = 0 THEN {} ELSE {j} \cup Spine(tr, tr[j].p)
@@ -77,7 +80,6 @@ Ctls(tr) == {<<>>} \cup Singles(tr) \cup Pairs(tr)
 
 \* ---------------------------------------------------------------- laws (independent characterisations)
 W0 == Walk(T, <<>>).walk
-Abs(x) == IF x < 0 THEN -x ELSE x
 
 RECURSIVE IsAnc(_, _, _)
 IsAnc(tr, i, j) == j = i \/ (j # 1 /\ IsAnc(tr, i, tr[j].p))
@@ -156,13 +158,36 @@ MirrorK == [i \in Nodes(T) |->
 LawMirror ==
   WellFormed(T) =>
     \A c \in {<<>>} \cup Singles(T) :
-      LET r == Visit(MirrorK, c, 1, [w |-> <<>>, err |-> 0]) IN
+      LET r == Visit(MirrorK, c, 0, 1, [w |-> <<>>, err |-> 0]) IN
       /\ Accept(T, c, FALSE, r.w) = [ok |-> TRUE, ret |-> Ret(r.err)]
       /\ (Accept(T, c, TRUE, r.w).ok = (r.w = Walk(T, c).walk))
 
+\* the automaton is strict where the order is fixed: list elements by index, the unknown step last
+FullMirrorK == [i \in Nodes(T) |-> Rev(KidsMap(T)[i])]
+LawStrict ==
+  WellFormed(T) =>
+    LET w == Visit(FullMirrorK, <<>>, 0, 1, [w |-> <<>>, err |-> 0]).w
+        m == Visit(MirrorK, <<>>, 0, 1, [w |-> <<>>, err |-> 0]).w
+    IN Accept(T, <<>>, FALSE, w).ok = (w = m)
+
+\* with one kind of callback the same steps are visited: the walk is the push (pop) subsequence of the full walk
+LawOneSided ==
+  WellFormed(T) =>
+    /\ WalkCb(T, <<>>, 1).walk = SelectSeq(W0, LAMBDA x : x > 0)
+    /\ WalkCb(T, <<>>, 2).walk = SelectSeq(W0, LAMBDA x : x < 0)
+    \* Break returned by the only callback at its k-th call acts like Break at that push (pop) of the full walk
+    /\ \A k \in 1..Len(T) : \A cb \in {1, 2} :
+         LET full == IF cb = 1 THEN SelectSeq(W0, LAMBDA x : x > 0) ELSE SelectSeq(W0, LAMBDA x : x < 0)
+             pos == CHOOSE q \in 1..Len(W0) : W0[q] = full[k]
+             both == Walk(T, << <<pos, Break>> >>).walk
+         IN WalkCb(T, << <<k, Break>> >>, cb).walk = SelectSeq(both, LAMBDA x : IF cb = 1 THEN x > 0 ELSE x < 0)
+
 \* ---------------------------------------------------------------- tour
-Case(tr, c, stable) == [tree |-> tr, ctl |-> c, stable |-> stable]
+Case(tr, c, stable, cb) == [tree |-> tr, ctl |-> c, stable |-> stable, cb |-> cb]
+Line(e) == PrintT("@@" \o ToJson(e @@ [exp |-> Expect(e)]))
+OneSided(tr) == {<<>>} \cup {<< <<k, c>> >> : k \in 1..Len(tr), c \in {1, 2, 3}}
 Emit == WellFormed(T') =>
-          /\ \A c \in Ctls(T') : PrintT("@@" \o ToJson(Case(T', c, 1) @@ [exp |-> Expect(Case(T', c, 1))]))
-          /\ PrintT("@@" \o ToJson(Case(T', <<>>, 0) @@ [exp |-> Expect(Case(T', <<>>, 0))]))
+          /\ \A c \in Ctls(T') : Line(Case(T', c, 1, 0))
+          /\ \A c \in OneSided(T') : Line(Case(T', c, 1, 1)) /\ Line(Case(T', c, 1, 2))
+          /\ \A cb \in {0, 1, 2} : Line(Case(T', <<>>, 0, cb))
 =============================================================================
